@@ -184,9 +184,12 @@ def check_search_history_free(res, facts):
         note = cc1.get('note_num')
         bad = cached_syms(note.term) if isinstance(note, Num) else ['?']
         dep = []
+        search_fns = _callees_closure(facts, run.fn_path) if run.fn_path else None
         for f, org in o.ctx.origins.items():
             if org in own or not org.startswith('synth_utils::quantizer::'):
                 continue
+            if search_fns is not None and org not in search_fns:
+                continue    # a guard evaluated before the search (the window test, wherever it was factored out to)
             polys = [x for x in f.k[1:] if isinstance(x, Poly)]
             for pp in polys:
                 cs = cached_syms(pp)
@@ -195,6 +198,27 @@ def check_search_history_free(res, facts):
         res.ob('R-HYST', 'search outside the window is history-free (path %d)' % n, not bad and not dep,
                'new note depends on the previous conversion: value symbols %s; branches %s' % (bad, sorted(set(dep))[:4]), where, key='R-HYST:search-history-free:%d' % n)
     res.floor('history_free_paths', n, 4)
+
+
+def _callees_closure(facts, root):
+    """the function containing the scan and everything it calls inside the crate"""
+    seen, stack = set(), [root]
+    while stack:
+        p = stack.pop()
+        if p in seen:
+            continue
+        seen.add(p)
+        f = facts.fns.get(p)
+        if f is None:
+            continue
+        for b in f['blocks']:
+            t = b['term']
+            if t['k'] == 'call' and 'def' in t['callee']:
+                for key in ('via_from', 'resolved'):
+                    c = t['callee'].get(key)
+                    if c and c['path'] in facts.fns and facts.fns[c['path']].get('crate') == 'synth_utils':
+                        stack.append(c['path'])
+    return seen
 
 
 def check_forbid_rescue(res, facts):
